@@ -126,12 +126,6 @@ func consUnits(thorough bool) []*unit {
 					}
 				}})
 			}
-			{
-				st, pm := st, pm
-				add(&unit{State: st, Peer: pm, Kind: "coupled", Msg: "groups", Est: 1500, gen: func(w *worker, u *unit, emit func(*caseT)) {
-					genCoupled(w, st, pm, emit)
-				}})
-			}
 			if pm == peerFresh {
 				st := st
 				// a peer that announced the next round and a proposal with a proof-of-lock round, then sends its
@@ -221,6 +215,16 @@ func consUnits(thorough bool) []*unit {
 					}
 				}})
 			}
+		}
+	}
+	// coupled-field groups and claimed-position sequences: every node state plus a node at height 3
+	for _, st := range append(append([]string(nil), allNodeStates...), stH3NewHeight) {
+		for _, pm := range []string{peerFresh, peerKnown} {
+			st, pm := st, pm
+			add(&unit{State: st, Peer: pm, Kind: "coupled", Msg: "groups", Est: 1500, gen: func(w *worker, u *unit, emit func(*caseT)) {
+				genCoupled(w, st, pm, emit)
+				genClaimed(w, st, pm, emit)
+			}})
 		}
 	}
 	// every 1- and 2-byte string (and the empty one) on every channel id
